@@ -64,7 +64,9 @@ class Ctx:
         fn = {"core": "blots_core-rlib.json", "cli": "blots-executable.json", "wasm": "blots_wasm-cdylib.json"}[which]
         key = (which, profile)
         if key not in self._crates:
-            self._crates[key] = Crate(F.load(os.path.join(self.fdir, "facts-" + profile), fn))
+            self._crates[key] = Crate(F.canonicalise(os.path.join(self.fdir, "facts-" + profile))[fn])
+            if F.RENAMED and not any(n_.startswith("renamed private functions") for n_ in self.notes):
+                self.notes.append("renamed private functions recognised by role and reported under their canonical names: %s" % sorted(F.RENAMED.items()))
             c = self._crates[key]
             self.units["%s(%s).mir_fns" % (c.name, profile)] = len(c.mir)
             self.units["%s(%s).hir_fns" % (c.name, profile)] = len(c.hir)
